@@ -292,6 +292,8 @@ class C03:
                         continue
                     if isinstance(tgt, (ast.Tuple, ast.List)) and len(tgt.elts) == 2 and all(isinstance(e, ast.Name) for e in tgt.elts):
                         enforced = f"`for {L.target_text} in ...` unpacks every point into exactly two names ({v.name})"
+                    elif s.unpacked.get(("elem", lid)) == 2 and not any(e_.kind in ("break", "continue") and lid in e_.loops for e_ in s.events):
+                        enforced = f"every point is unpacked into exactly two names ({v.name})"
                 for r in s.raises:
                     for x in conjuncts(r.live):
                         if x[0] == "cmp" and x[1] == "ne" and ("const", 2) in (x[2], x[3]):
@@ -466,6 +468,122 @@ class C03:
                         witness={"point": p, "code": "accept", "spec": "reject"})
         self.check_normal_form(c, normalisers)
 
+    # ------------------------------------------------------------------ R03.7 the JSON dump is the coordinates themselves
+    def check_serialisers(self, classes):
+        """`re-validating its JSON dump yields an equal geometry` needs the dump to carry the coordinates unchanged: no class in
+        the geometry hierarchy may install a serializer (field_serializer / model_serializer / PlainSerializer /
+        json_encoders) -- pydantic's default dump of List[float] is trusted, a custom one would have to be proved."""
+        ctx = self.ctx
+        base = ctx.index.need_class(GEO, "BaseGeometry")
+        seen = set()
+        for c in [base] + list(classes):
+            for k in c.mro():
+                if k.qual in seen:
+                    continue
+                seen.add(k.qual)
+                hits = []
+                for name, fns in k.methods.items():
+                    for fn in fns:
+                        for d in fn.decorator_list:
+                            dn = ast.unparse(d.func if isinstance(d, ast.Call) else d).split(".")[-1]
+                            if dn in ("field_serializer", "model_serializer", "computed_field"):
+                                hits.append((fn.lineno, f"@{dn} on {k.name}.{name}"))
+                for st in k.node.body:
+                    txt = ast.unparse(st)
+                    if isinstance(st, (ast.AnnAssign, ast.Assign)) and any(w in txt for w in ("PlainSerializer", "WrapSerializer", "json_encoders", "ser_json_")):
+                        hits.append((st.lineno, f"{k.name}: {txt[:60]}"))
+                for line, what in hits:
+                    ctx.bad("R03.7", k.module.relpath, k.name, what,
+                            f"{what}: the JSON dump of a geometry no longer is its coordinates as validated (rounded, re-ordered or "
+                            f"re-encoded values), so re-validating the dump need not give an equal geometry", line)
+                if not hits:
+                    ctx.ok("R03.7", f"{k.module.relpath}:{k.node.lineno} {k.name}", "no custom serializer: coordinates are dumped as they are")
+
+    # ------------------------------------------------------------------ R03.8 no indexing before a length is established
+    def check_index_safety(self, c: ClassInfo):
+        """Coordinate validators run in definition order (base classes first).  A constant subscript X[i] of the coordinates
+        (or of one of their sub-lists) needs len(X) > i: established by a guard earlier on the same path or by a rejection in a
+        validator that runs before -- otherwise the input [] / [[]] leaves the validator as IndexError, which pydantic does not
+        turn into a validation error."""
+        ctx, m = self.ctx, self.ctx.models
+        spec = SPEC.get(c.name)
+        if spec is None or spec.get("scalar"):
+            return
+        vals = [v for v in m.validators(c) if v.kind == "field" and v.fields == ("coordinates",) and v.mode == "after"]
+        leaf_depth = spec["depth"] if spec.get("leaf") == "tf" else None  # depth of a point (whose own length is its arity)
+        established: Dict[int, int] = {}
+        for v in vals:
+            s = ctx.summ.of_node(c.module, v.node, f"{c.qual}.{v.name}", c)
+            vp = ("param", s.params[1] if len(s.params) > 1 else s.params[0])
+            # uses
+            for e in s.events:
+                for where in (e.live, e.term):
+                    for x in walk(where):
+                        if x[0] != "sub" or x[2][0] != "const" or not isinstance(x[2][1], int) or isinstance(x[2][1], bool):
+                            continue
+                        d = self.depth(x[1], s, vp)
+                        if d is None:
+                            # first/last element of a level: X[0][0] has base X[0] (an element, depth d+1)
+                            b = x[1]
+                            if b[0] == "sub" and b[2][0] == "const":
+                                db = self.depth(b[1], s, vp)
+                                d = None if db is None else db + 1
+                        if d is None:
+                            continue
+                        if x[1] in s.unpacked and x[2][1] >= 0 and x[2][1] < s.unpacked[x[1]]:
+                            continue  # component of an unpack `a, b = X`: a wrong arity is a ValueError, not an IndexError
+                        if leaf_depth is not None and d == leaf_depth and x[1][0] == "elem":
+                            li = s.loops.get(x[1][1])
+                            tt = li.target_text if li is not None else ""
+                            if "," in tt:
+                                continue  # component of a two-name unpack: a wrong arity is a ValueError, not an IndexError
+                        need = x[2][1] + 1 if x[2][1] >= 0 else -x[2][1]
+                        have = established.get(d, 0)
+                        LEN = ("call", ("builtin", "len"), (x[1],), ())
+                        for cj in conjuncts(e.live):
+                            if cj[0] == "cmp" and cj[1] == "le" and cj[2][0] == "const" and cj[3] == LEN and isinstance(cj[2][1], int):
+                                have = max(have, cj[2][1])
+                            if cj[0] == "cmp" and cj[1] == "lt" and cj[2][0] == "const" and cj[3] == LEN and isinstance(cj[2][1], int):
+                                have = max(have, cj[2][1] + 1)
+                            if cj[0] == "cmp" and cj[1] == "eq" and LEN in (cj[2], cj[3]):
+                                o = cj[3] if cj[2] == LEN else cj[2]
+                                if o[0] == "const" and isinstance(o[1], int):
+                                    have = max(have, o[1])
+                        site = f"{FILE}:{v.node.lineno} {c.name}.{v.name}"
+                        if have >= need:
+                            ctx.ok("R03.8", site, f"{show(x)[:40]}: length >= {need} established before")
+                        else:
+                            ctx.bad("R03.8", FILE, f"{c.name}.{v.name}", f"{show(x)[:50]} without an established length",
+                                    f"{c.name}.{v.name} indexes `{show(x)[:60]}` although no earlier guard or validator has rejected inputs "
+                                    f"with fewer than {need} element(s) at that level (validators run in definition order): "
+                                    f"{c.name}(coordinates={'[]' if d == 0 else '[[]]'}) escapes as IndexError instead of a validation error",
+                                    v.node.lineno, witness={"coordinates": [] if d == 0 else [[]]})
+            # what this validator establishes for the ones after it
+            for r in s.raises:
+                conj = [x for x in conjuncts(r.live) if x[0] != "inloop"]
+                # the rejecting test is the last conjunct; the ones before it must be what earlier rejections left behind
+                # (lower bounds on lengths), otherwise the rejection is conditional and establishes nothing
+                def lower_bound(x):
+                    return x[0] == "cmp" and x[1] in ("le", "lt") and x[2][0] == "const" and x[3][0] == "call" and x[3][1] == ("builtin", "len")
+                if not conj or conj[-1][0] != "cmp" or not all(lower_bound(x) for x in conj[:-1]):
+                    continue
+                cj = conj[-1]
+                # len(X) < k  (stored as lt(len X, k)) / len(X) != k
+                if cj[1] in ("lt", "le") and cj[2][0] == "call" and cj[2][1] == ("builtin", "len") and cj[3][0] == "const" and isinstance(cj[3][1], int):
+                    d = self.depth(cj[2][2][0], s, vp)
+                    if d is not None:
+                        established[d] = max(established.get(d, 0), cj[3][1] + (1 if cj[1] == "le" else 0))
+                if cj[1] == "ne" and any(y[0] == "call" and y[1] == ("builtin", "len") for y in (cj[2], cj[3])):
+                    ln = cj[2] if cj[2][0] == "call" else cj[3]
+                    o = cj[3] if ln is cj[2] else cj[2]
+                    d = self.depth(ln[2][0], s, vp)
+                    if d is not None and o[0] == "const" and isinstance(o[1], int):
+                        established[d] = max(established.get(d, 0), o[1])
+            if leaf_depth is not None:
+                for lid, L in s.loops.items():
+                    if self.depth(("elem", lid), s, vp) == spec["depth"] and ("," in (L.target_text or "") or s.unpacked.get(("elem", lid)) == 2):
+                        established[leaf_depth] = max(established.get(leaf_depth, 0), 2)
+
     # ------------------------------------------------------------------ R03.3
     def check_normal_form(self, c: ClassInfo, normalisers):
         ctx = self.ctx
@@ -619,9 +737,13 @@ def run(ctx: Ctx):
     ctx.rule("R03.4", "geometry_validate: class from own tag, from_attributes only for 'attributes', errors converted", 9)
     ctx.rule("R03.5", "validator discipline: after-mode on coordinates, returns value or raises convertible error", 12)
     ctx.rule("R03.6", "every (time, frequency) point is forced to have exactly two values", 5)
+    ctx.rule("R03.7", "no serializer alters the dumped coordinates", 10)
+    ctx.rule("R03.8", "no subscript of the coordinates before a length is established (validator order)", 4)
     c = C03(ctx)
     classes = c.check_table()
+    c.check_serialisers(classes)
     for k in classes:
         c.check_class(k)
+        c.check_index_safety(k)
     c.check_validate()
     return EXPLANATION, ASSUMPTIONS
